@@ -1,6 +1,8 @@
 package props
 
 import (
+	"github.com/yuin/goldmark/ast"
+
 	"encoding/json"
 	"fmt"
 	"os"
@@ -327,6 +329,15 @@ func runC03(r *core.Run) {
 					}
 				})
 		}
+	}
+	for _, cn := range []string{"all+cjk+attr+autoid", "all+attr+autoid+xhtml"} {
+		cfg := core.MustCfg(cn)
+		sharedContextSub(r, "shared-context/"+cn, "every output satisfies the same oracle", cfg, c12StructuredDocs(r.Quick()),
+			func(s *core.Sub, cfg core.Cfg, d, out []byte, tree ast.Node, hist []string) {
+				if sig, detail, _ := safeOracle(out, cfg.XHTML); sig != "" {
+					s.Violate(sig+"|shared-context", cfg.String(), d, hist, detail, "inert well-nested markup from the fixed vocabulary", string(out))
+				}
+			})
 	}
 	// long payloads of every length in every sink (buffers, chunked escaping, multi-byte sequences at chunk borders)
 	lengthSub(r, "lengths/all+attr+autoid+xhtml", core.MustCfg("all+attr+autoid+xhtml"), core.Pick(r, 600, 2200), func(s *core.Sub, cv *core.Conv, w []byte) { c03Case(s, cv, w, "lengths") })
